@@ -22,6 +22,7 @@ def run(tier, seed):
                                    sandwich=("u8", "inner", "a_u16_3", "d_char", "e8", "anon_s"))
     from t2.family import Program
 
+    progs = sets.dedupe(progs + sets.sandwiches())
     progs += [Program(["b8_roll"], e, a) for e in "<>" for a in (False, True)] + [Program(["b8_part", "b8_part"], "<", False)]
     rep.add_case_results(run_cases([("t2.cases", "make_layout", (p.to_json(),)) for p in progs]), "T2")
     rep.add_case_results(run_cases([("t2.cases", "make_rel", (p.to_json(),)) for p in progs]), "T2")
